@@ -428,6 +428,10 @@ def gen_gap(rng: random.Random, style: str, must: bool, ws_first: bool, no_slash
         return ' '
     if style == 'lines':
         return '\n'
+    if style == 'cr':
+        return '\r'
+    if style == 'tab':
+        return '\t'
     parts = []
     n = rng.randint(0, 3) if style == 'ws' else rng.randint(1, 3)
     for _ in range(n):
@@ -435,7 +439,7 @@ def gen_gap(rng: random.Random, style: str, must: bool, ws_first: bool, no_slash
         if style == 'comments' and r < 0.6:
             parts.append(gen_comment(rng))
         else:
-            parts.append(rng.choice([' ', '  ', '\n', '\t', '\r\n', ' \n  ']))
+            parts.append(rng.choice([' ', '  ', '\n', '\t', '\r\n', ' \n  ', '\r', '\r', '\t\t']))
     g = ''.join(parts)
     if must and not g:
         g = ' '
